@@ -39,7 +39,7 @@ Mk(steps, inner, ks, sched, fz, con) ==
        dlnHi |-> IF sched = "finish" THEN d ELSE IF sched = "none" THEN 2 ELSE 1,
        dlnAsWritten |-> loops,
        lastLo |-> d * (loops - 1), lastHi |-> d * loops,
-       anyFactor |-> FALSE, keepHist |-> FALSE, prefixRef |-> FALSE,
+       anyFactor |-> FALSE, keepHist |-> FALSE, prefixRef |-> FALSE, sameLength |-> FALSE,
        convOn |-> con, thr |-> 1]
 MCConfigs == { Mk(s, i, ks, sc, fz, con) :
                  s \in StepsSet, i \in InnerSet, ks \in {"zero", "pos"},
